@@ -1,6 +1,7 @@
 import TrionModel.Lemmas.AsmXferRun
 import TrionModel.Props.C05Multi2
 import TrionModel.Props.C01
+import TrionModel.Props.C04
 import TrionModel.Props.C05AsmFull
 /-!
 # C05 (pipeline clause, projects with `.include`, `.global`, `.export`, `.import`) — stage 3, partial
@@ -249,6 +250,23 @@ theorem encoder_ok_decode {i : Instr} {b : Bytes} (h : encoder i = .ok b) (wf : 
   obtain ⟨hws, h1, h2⟩ := encoder_ok_encode h
   exact ⟨hws, h1, h2, Codec.enc_sound i hws h1 wf⟩
 
+/-- C05 ∘ C04 ∘ C01  What `InstrGen` means at SPECIFICATION level.  `InstrGen` itself is a statement about the MODEL: the
+model's fresh assembly over the final table completes and the model's `encoder` accepts.  Composed with C04 (`build_wf`: an
+instruction the front end completes is well-formed) and C01 (`enc_sound`: the encoding of a well-formed instruction decodes,
+by the architecture's own decoder `Arm.decode`, to that instruction): the reference bytes `instrFinal` are the little-endian
+halfwords `hws` of an ARMv6-M encoding that DECODES to the instruction the statement denotes over the final table. -/
+theorem InstrGen.spec {t : Table} {addr : Nat} {name : Bytes} {tpl : Instr} {args : List Arg}
+    (hm : Front.mnemonic name = some tpl) (h : InstrGen encoder t addr tpl args) :
+    ∃ fs2 hws, Front.assemble ⟨addr, tpl, 0, args⟩ (frontEval t) true = (fs2, .completed) ∧
+      Codec.encode fs2.instr = .ok hws ∧
+      instrFinal encoder t addr tpl args = (Codec.toBytes hws).map (·.toUInt8) ∧ Arm.decode hws = some fs2.instr := by
+  obtain ⟨fs2, b, h1, h2, h3⟩ := h.final
+  have hb : Front.build addr name args (frontEval t) true = .completed fs2.instr := by
+    simp only [Front.build, hm, h1]
+  have wf := Front.build_wf addr name args (frontEval t) true fs2.instr hb
+  obtain ⟨hws, e1, e2, e3⟩ := encoder_ok_decode h2 wf
+  exact ⟨fs2, hws, h1, e1, by rw [h3, e2], e3⟩
+
 /-- C05 (no placeholder survives; the bytes ARE the encodings — STRONG form of `every_statement_placed_asm_scope_partial`).
 Every emitting statement `s` of the flattened program stands with its reference bytes at its reference address, `s` is the
 abstraction of an ordinary source statement `el` of a file instance over that instance's final table `t'`, AND `el` is
@@ -279,27 +297,47 @@ theorem every_statement_placed_asm_scope_strong {num : Nat → Bytes → Nat} (h
       obtain ⟨xv, _, rfl⟩ := hm
       cases hse
 
-/-- C05 (a label / constant has ONE value) at the pipeline level.  In a successful run there is one symbol table `E` for the
-whole project such that every ordinary statement of every file instance `id'` — wherever it stands: before or after the
-definition of the names it uses, before or after an `.include`, in whichever file of the tree — is assembled over a table
-`t'` that gives every name `x` exactly the value `E (num id' x)`; and (strong form) the statement's bytes are genuinely
-the bytes it denotes over that table.  (The Layout-level theorems `forward_equals_backward`, `const_position_irrelevant`,
-… of Props/C05.lean are about `Layout.Stmt`, where the final value is an INPUT; this is the statement that carries the
-clause for the implementation's pipeline.) -/
+/-- C05 (a label / constant has ONE value) at the pipeline level — a COROLLARY of `layout_refines_asm_scope_strong` and
+`every_statement_placed_asm_scope_strong`, restated so that everything is tied to the run `o`:
+* `E` is the symbol table of the layout core's own execution of the flattened program (`MRun {} prog la`, `la.env = E`) — a
+  label's entry in `E` is the cursor that execution had at the label, a constant's its value — and `t` with
+  `EnvRel (num 1) t E` is the main file's final table;
+* the output image `o.image` is, address by address, `pass2` of the flattened program, and
+* for EVERY emitting statement `s` of EVERY file instance, the bytes of `o.image` at its reference address are the bytes of
+  the genuine (`ElGen`) fresh assembly of its source statement over a table `t'` with `t'.val x = E (num id' x)` for all `x`.
+So within the one run every reference to a name — before or after its definition, before or after an `.include`, in any
+file of the tree — is assembled over the one value `E` gives it, and those bytes are in the image.  (A table that gives `x`
+another value is refuted by the `MRun`/`EnvRel` clauses: example below.)  The Layout-level theorems
+`forward_equals_backward`, … of Props/C05.lean are about `Layout.Stmt`, where the final value is an INPUT. -/
 theorem label_value_position_independent_asm {num : Nat → Bytes → Nat} (hinj : NumInj num) (fs : Bytes → Option Bytes)
     (main data : Bytes) (hfs : fs main = some data) (hglob : XferProject fs maxDepth [] main data) (o : Outcome)
     (h : run fs main = .done o) (hs : o.success = true) :
-    ∃ (els : List Element) (perr : Option ParseErr) (p : List Layout.Stmt) (E : Layout.Env) (t : Table) (n : Nat),
-      parseFile data = .ok (els, perr) ∧ XFlatS num fs encoder E 0 1 main t 2 none els p n ∧
-      ∀ s ∈ p, (∃ id' path' t' c' el, s = absStmt (num id') fs encoder path' t' c' el ∧ isInclude el = false ∧
-          ElGen fs encoder path' t' c' el ∧ ∀ x, t'.val x = E.get (num id' x)) ∨
-        (∃ n d v, s = .const n [d] v) := by
-  obtain ⟨els, perr, p, E, t, n, A, im', la, h1, h2, _, h3, _⟩ :=
+    ∃ (els : List Element) (perr : Option ParseErr) (p : List Layout.Stmt) (E : Layout.Env) (t : Table) (n : Nat)
+      (A : List (Bytes × Int)) (im' : Layout.Img) (la : Layout.State),
+      parseFile data = .ok (els, perr) ∧ EnvRel (num 1) t E ∧ Table.NoDef t ∧
+      XFlatS num fs encoder E 0 1 main t 2 none els p n ∧
+      MRun ({} : Layout.State) (p ++ aliases (num 0) (num 1) A) la ∧ la.env = E ∧
+      Layout.Ref.pass2 none [] (p ++ aliases (num 0) (num 1) A) = some im' ∧ (∀ a, Map.abs o.image a = im'.get a) ∧
+      (∀ q s r, p ++ aliases (num 0) (num 1) A = q ++ s :: r → s.emits = true →
+        (∃ c, Layout.Ref.cursorAfter none q = some c ∧
+          ∀ i, i < (Layout.Ref.bytes c s).length → Map.abs o.image (c + i) = (Layout.Ref.bytes c s)[i]?) ∧
+        ∃ id' path' t' c' el, s = absStmt (num id') fs encoder path' t' c' el ∧ isInclude el = false ∧
+          ElGen fs encoder path' t' c' el ∧ ∀ x, t'.val x = E.get (num id' x)) ∧
+      (Layout.NoLabelAtTop (p ++ aliases (num 0) (num 1) A) →
+        Layout.Ref.pass1 none [] (p ++ aliases (num 0) (num 1) A) = some E) := by
+  obtain ⟨els, perr, p, E, t, n, A, im', la, h1, h2, hnd, h3, hrun, hla, _, _, _, _, h8, h9, h10, h11⟩ :=
     layout_refines_asm_scope_strong hinj fs main data hfs hglob o h hs
-  refine ⟨els, perr, p, E, t, n, h1, h3, fun s hs' => ?_⟩
-  rcases h3.source h2 s hs' with ⟨id', path', t', c', el, g1, g2, g3, g4⟩ | hal
-  · exact .inl ⟨id', path', t', c', el, g4, g2, g3, fun x => (g1 x).symm⟩
-  · exact .inr hal
+  refine ⟨els, perr, p, E, t, n, A, im', la, h1, h2, hnd, h3, hrun, hla, h8, h9, fun q s r hp hse => ⟨?_, ?_⟩, h11⟩
+  · obtain ⟨x, hx, hb⟩ := h10 q s r hp hse
+    exact ⟨x, hx, fun i hi => by rw [h9]; exact hb i hi⟩
+  · have hmem : s ∈ p ++ aliases (num 0) (num 1) A := by rw [hp]; simp
+    rcases List.mem_append.mp hmem with hm | hm
+    · rcases h3.source h2 s hm with ⟨id', path', t', c', el, g1, g2, g3, g4⟩ | ⟨n', d, v, rfl⟩
+      · exact ⟨id', path', t', c', el, g4, g2, g3, fun x => (g1 x).symm⟩
+      · cases hse
+    · simp only [aliases, List.mem_map] at hm
+      obtain ⟨xv, _, rfl⟩ := hm
+      cases hse
 
 /-! ### the single-file theorems in strong form -/
 
@@ -706,5 +744,72 @@ example : XferProject exTopFs maxDepth [] (bytesOf "m") exTopText ∧
       | .done o => o.success && o.diags.isEmpty && o.image == [(0, [0xFF, 0xFF, 0xFF, 0xFF]), (0xFFFFFFFF, [0x00])]
       | _ => false) = true :=
   ⟨xferProject_of_B _ _ _ _ _ (by decide +kernel), by decide +kernel⟩
+
+/-! ### the clauses of `label_value_position_independent_asm` pin the table -/
+
+/-- the auditor's program `.addr 16; x: ; .du8 x`, parsed -/
+def exPinEls : List Element :=
+  [⟨1, 1, .directive (bytesOf "addr") (.cons (.const 16) .nil)⟩,
+   ⟨2, 1, .label [120]⟩,
+   ⟨3, 1, .directive (bytesOf "du8") (.cons (.ident [120]) .nil)⟩]
+
+/-- the clauses `XFlatS`, `MRun {} p la`, `la.env = E`, `EnvRel (num 1) t E` PIN the table: for the program
+`.addr 16; x: ; .du8 x` every `t` that satisfies them gives `x` the value 16 — -/
+theorem exPin_value {num : Nat → Bytes → Nat} (fs : Bytes → Option Bytes) (E : Layout.Env) (t : Table)
+    (p : List Layout.Stmt) (n : Nat) (la : Layout.State)
+    (hf : XFlatS num fs encoder E 0 1 (bytesOf "m") t 2 none exPinEls p n) (hrun : MRun ({} : Layout.State) p la)
+    (hla : la.env = E) (hE : EnvRel (num 1) t E) : t.val [120] = some 16 := by
+  have hp : p = [.addr 16, .label (num 1 [120]), .emit 1 [num 1 [120]] (duFinal t .u8 (.ident [120]))] := by
+    unfold exPinEls at hf
+    cases hf with
+    | stmt _ _ _ _ _ hf1 =>
+      cases hf1 with
+      | stmt _ _ _ _ _ hf2 =>
+        cases hf2 with
+        | stmt _ _ _ _ _ hf3 =>
+          cases hf3
+          rfl
+        | pubs hg _ => rcases hg with hg | hg <;> cases hg
+        | imp hi _ _ => cases hi
+        | inc ht _ _ _ _ _ _ => cases ht
+      | pubs hg _ => rcases hg with hg | hg <;> cases hg
+      | imp hi _ _ => cases hi
+      | inc ht _ _ _ _ _ _ => cases ht
+    | pubs hg _ => rcases hg with hg | hg <;> cases hg
+    | imp hi _ _ => cases hi
+    | inc ht _ _ _ _ _ _ => cases ht
+  subst hp
+  have hwf : ∀ s ∈ [Layout.Stmt.addr 16, .label (num 1 [120]), .emit 1 [num 1 [120]] (duFinal t .u8 (.ident [120]))],
+      s.wf = true := by
+    intro s hs
+    simp only [List.mem_cons, List.not_mem_nil, or_false] at hs
+    rcases hs with rfl | rfl | rfl
+    · rfl
+    · rfl
+    · simp [Layout.Stmt.wf, duFinal_length, DU.size]
+  have rel0 : Layout.Rel ({} : Layout.State) ([] ++ ({} : Layout.State).tasks) none [] := Layout.rel_init
+  obtain ⟨_, _, _, p1⟩ := Layout.mrun_rel hrun [] none [] rel0 hwf
+  have hnt : Layout.NoTop none [Layout.Stmt.addr 16, .label (num 1 [120]),
+      .emit 1 [num 1 [120]] (duFinal t .u8 (.ident [120]))] := by
+    intro x m hx
+    simp [Layout.Ref.trace, Layout.Ref.next] at hx
+    obtain ⟨rfl, _⟩ := hx
+    decide
+  have := p1 hnt []
+  simp [Layout.Ref.pass1, Layout.Env.get, Layout.Ref.cursorAfter, Layout.top] at this
+  have hx := hE [120]
+  rw [← hla, ← this] at hx
+  simp [Layout.Env.get] at hx
+  exact hx.symm
+
+/-- — so the auditor's witness (`t.val x = some 7`) is refuted -/
+example {num : Nat → Bytes → Nat} (fs : Bytes → Option Bytes) (E : Layout.Env) (t : Table)
+    (p : List Layout.Stmt) (n : Nat) (la : Layout.State) :
+    ¬ (XFlatS num fs encoder E 0 1 (bytesOf "m") t 2 none exPinEls p n ∧ MRun ({} : Layout.State) p la ∧
+        la.env = E ∧ EnvRel (num 1) t E ∧ t.val [120] = some 7) := by
+  rintro ⟨hf, hrun, hla, hE, h7⟩
+  have := exPin_value fs E t p n la hf hrun hla hE
+  rw [this] at h7
+  cases h7
 
 end Trion.Asm
